@@ -1,16 +1,16 @@
 SPECIFICATION Spec
 CONSTANTS
  Copies = 1  Pad = 0  Concat = FALSE
- OutOvh = 1
+ OutOvh = 0
  EarlyTailError = FALSE
- MaxReinit = 0 MemStop = 1000000 MaxRaise = 0
+ MaxReinit = 0 MemStop = 3 MaxRaise = 0
  CountCalls = TRUE
  NW = 2  HdrSz = 1  TailSz = 1  TailOk = TRUE  Chunk = 1
- Blocks <- B_ok3
- FileLen = 7
- Timeout = FALSE  FailFast = TRUE  Spurious = FALSE  MemT = 100
+ Blocks <- B_memstop
+ FileLen = 9
+ Timeout = FALSE  FailFast = FALSE  Spurious = FALSE  MemT = 10
  Gives = {0, 1, 100}  Spaces = {0, 1, 100}
- MaxCalls = 10
+ MaxCalls = 9
 CONSTRAINT CallBound
 VIEW MCView
 INVARIANTS OutputIsPrefix TerminalEquivalence BufErrorOnlyWhenStarved NoUseAfterFree FailedWorkerNotReused QueueOk DocumentedCodes EndJoinsAll MemlimitEquivalence
